@@ -227,11 +227,12 @@ def solve_exact_cover(
     Returns:
         Result with solution (tuple of row indices) or list of solutions if find_all
     """
-    if not matrix:
-        return Result((), 0, 0, 0)
-
     root, _, _ = _build_links(matrix, columns, secondary)
     if root is None:
+        # No rows or no columns: the empty selection is the one and only solution
+        if find_all:
+            status = Status.FEASIBLE if max_solutions and max_solutions <= 1 else Status.OPTIMAL
+            return Result([()], 1, 0, 0, status)
         return Result((), 0, 0, 0)
 
     solutions = []
